@@ -10,8 +10,9 @@ def main(tier):
     kernels.bezier_algebra(P, rep)
     kernels.acos_clamp(P, rep)
     kernels.kd_structure(P, rep)
-    rep.assumptions.append("nearest-ness of the kd search result, polygon exactness, Newton convergence and the round trip of the coordinate "
-                           "conversions are NOT decided (numeric)")
+    kernels.conversion_roundtrip(P, rep)
+    rep.assumptions.append("nearest-ness of the kd search result, polygon exactness, Newton convergence are NOT decided (numeric); the conversion round trip is decided "
+                           "as an algebraic identity only (no rounding)")
     rep.explanation = ("Computer-algebra identity between the closest-point search's cubic coefficients and the Bernstein form evaluated by "
                        "operator(), interval check of the acos clamp, structure of the kd-tree search (near child unconditional, far child "
                        "pruned on the split-axis difference, same mid in build and search).")
